@@ -121,10 +121,22 @@ def run(rep, rng, tier):
         args = {'values': list(v), 'dt': dt, 'target_dt': tg, 'even': even}
         if fn == 0:
             r = guarded(interp_array_to_approx_dt, v.copy(), dt, target_dt=tg, even=even)
-        elif fn == 1:
-            r = guarded(lambda: (lambda s: (s.values, s.dt))(interp_to_approx_dt(eqsig.AccSignal(v.copy(), dt), target_dt=tg, even=even)))
         else:
-            r = guarded(lambda: (lambda s: (s.values, s.dt))(resample_to_approx_dt(eqsig.AccSignal(v.copy(), dt), target_dt=tg, even=even)))
+            f_obj = interp_to_approx_dt if fn == 1 else resample_to_approx_dt
+
+            def obj_call():
+                if n % 3 == 0 and n >= 2:
+                    # the object first holds ANOTHER record of the same length and is resampled with the same arguments; the
+                    # record is then replaced through the public API: the second answer is that of the record it holds now
+                    s0 = eqsig.AccSignal(v[::-1] * 0.5 + 1.0, dt)
+                    f_obj(s0, target_dt=tg, even=even)
+                    s0.reset_values(v.copy())
+                    args['history'] = 'AccSignal(other record); same call; reset_values(values); call'
+                else:
+                    s0 = eqsig.AccSignal(v.copy(), dt)
+                s1 = f_obj(s0, target_dt=tg, even=even)
+                return s1.values, s1.dt
+            r = guarded(obj_call)
         if isinstance(r, ImplError):
             stats['impl_errors'] += 1
             rep.violation(site, {'function': site, 'args': args, 'impl_error': str(r)})
